@@ -233,6 +233,8 @@ def _submit(scen, cache, seams, hooklog, rerun=False, env=None):
                 return "exc", {"type": "errored-result", "msg": "result.errored"}, rec.events
             return "ok", {"out": r.outputs.out}, rec.events
         except BaseException as e:  # noqa: BLE001
+            if type(e).__name__ == "WallTimeout":
+                raise
             if rec.hung:
                 return "hang", {"type": "SimHang", "msg": f"slept {rec.slept:.0f} simulated s"}, rec.events
             return "exc", {"type": type(e).__name__, "msg": str(e)[:300]}, rec.events
@@ -410,6 +412,8 @@ def _history(case, ch, workdir, res, cwd0):
                     r = sub(task, hooks=hooks, rerun=rerun)
                 status = "errored" if r.errored else "ok"
             except BaseException as e:  # noqa: BLE001
+                if type(e).__name__ == "WallTimeout":
+                    raise
                 status = "exc:" + type(e).__name__
         finally:
             _rt.set_rt(old if old is not None else _rt.NullRT())
